@@ -2163,8 +2163,10 @@ impl Formatter {
 
   pub fn pattern_array(&mut self, node: &PatternArray) -> String {
     let mut parts: Vec<String> = vec![];
-    for p in &node.prefix {
-      parts.push(self.pattern(p));
+    // items before the spread are separated by commas: `[a, * … b]` printed as `[a * … b]` reads as a product
+    let prefix: Vec<String> = node.prefix.iter().map(|p| self.pattern(p)).collect();
+    if !prefix.is_empty() {
+      parts.push(prefix.join(", "));
     }
     if let Some(spread) = &node.spread {
       match spread.kind {
